@@ -97,16 +97,35 @@ def _kopt_step(u, jump, pdp=False):
     # ghost: POS(b,t) = the t-th node along next_rec starting from node 0
     POS = z3.Function("pos_along_tour", z3.IntSort(), z3.IntSort(), z3.IntSort())
 
+    def lookup(e):
+        # by name, else by role (a helper extracted from the step may rename them): the loop-carried rank-2 / rank-1 integer
+        # tensors are the visit times / the current node; the successor array is the other rank-2 integer tensor in scope
+        from tvc.core import SymTensor as _T
+
+        carried_names = list(e.get("__loop_carried__") or [])
+        def pick(name, rank, pool, exclude=()):
+            if name in e and isinstance(e[name], _T):
+                return name
+            c = [k for k in pool if isinstance(e.get(k), _T) and e[k].rank == rank and e[k].dtype in ("i", "f") and k not in exclude]
+            if len(c) == 1:
+                return c[0]
+            raise KeyError(f"cannot identify '{name}' among {c}")
+        vt = pick("visited_time", 2, carried_names)
+        pr = pick("pre", 1, carried_names)
+        others = [k for k in e if not k.startswith("__") and k not in (vt, pr)]
+        nr = pick("next_rec", 2, [k for k in others if isinstance(e.get(k), _T) and e[k].dtype == "i" and k not in carried_names
+                                  and not k.startswith("visited") and k not in ("solution_best", "rec_best")])
+        return e[vt], e[pr], e[nr]
+
     def inv(e, i):
-        vt, pr = e["visited_time"], e["pre"]
-        nr = e["next_rec"]
+        vt, pr, nr = lookup(e)
         return [("pre-is-ith-node", u.forall((B,), lambda b: AND(pr.at(b) == POS(b, zint(i)), pr.at(b) >= 0, pr.at(b) < N))),
                 ("pos-unfolds", u.forall((B, (0, zint(i))), lambda b, t: AND(POS(b, zint(t) + 1) == nr.at(b, POS(b, t)), POS(b, t) >= 0, POS(b, t) < N))),
                 ("last-write-wins", u.forall((B, (1, zint(i) + 1)), lambda b, t: IMPL(u.forall(((zint(t) + 1, zint(i) + 1),), lambda t2: POS(b, t2) != POS(b, t)), vt.at(b, POS(b, t)) == t)))]
 
     u.requires(u.forall((B,), lambda b: POS(b, 0) == 0))
     u.loop(FILE, f"{CLS}._step", 0, LoopInvariant(inv, name="visited-time-loop", tags=("C09",),
-                                                      facts=lambda e, i: [u.forall((B,), lambda b: POS(b, zint(i) + 1) == e["next_rec"].at(b, POS(b, zint(i))))]))
+                                                      facts=lambda e, i: [u.forall((B,), lambda b: POS(b, zint(i) + 1) == lookup(e)[2].at(b, POS(b, zint(i))))]))
     if jump:
         sol = u.tensor("solution_to", (B, N), "i")
         u.requires(u.forall((B, N), lambda b, i: AND(sol.at(b, i) >= 0, sol.at(b, i) < N)))
